@@ -345,6 +345,48 @@ func cmdCheck(args []string) int {
 	if loadErr != nil {
 		viols = append(viols, viol{Obligation: "load", Reason: "load-error", Detail: loadErr.Error()})
 	}
+	// Assumption scan: every assumption the generator made (trusted contracts, havoced
+	// calls, abstractions that fired) is compared with the committed list. A new one
+	// means the functions now rest on something that was not part of the claim -- e.g.
+	// a call to a function without a contract appeared -- and is reported, not passed.
+	curAssumed := map[string]bool{}
+	for _, r := range results {
+		for _, a := range r.Assumed {
+			curAssumed[r.Key+" :: "+a] = true
+		}
+	}
+	if gdata, err := os.ReadFile(filepath.Join(verifRoot, "golden", id+".assumptions")); err == nil && !update && only == "" {
+		known := map[string]bool{}
+		for _, ln := range strings.Split(string(gdata), "\n") {
+			if ln = strings.TrimSpace(ln); ln != "" {
+				known[ln] = true
+			}
+		}
+		var news []string
+		for a := range curAssumed {
+			if !known[a] {
+				news = append(news, a)
+			}
+		}
+		sort.Strings(news)
+		for _, a := range news {
+			fn := strings.SplitN(a, " :: ", 2)[0]
+			if funcFails[fn] || failedFn[fn] != "" {
+				continue // already reported through its obligations
+			}
+			viols = append(viols, viol{Obligation: fn + "/assumption", Reason: "new-assumption",
+				Detail: "the check of this function now relies on an assumption that is not in the committed list: " + a})
+		}
+	}
+	if update {
+		var as []string
+		for a := range curAssumed {
+			as = append(as, a)
+		}
+		sort.Strings(as)
+		os.MkdirAll(filepath.Join(verifRoot, "golden"), 0o755)
+		os.WriteFile(filepath.Join(verifRoot, "golden", id+".assumptions"), []byte(strings.Join(as, "\n")+"\n"), 0o644)
+	}
 	if update {
 		os.MkdirAll(filepath.Join(verifRoot, "golden"), 0o755)
 		sort.Strings(goodNames)
